@@ -38,6 +38,7 @@ def run(rep, tier):
     from .c11 import c11_5
     common.guarded(rep, "C06.4", c11_5, rep, ix, R="C06.4")
     common.guarded(rep, "C06.5", c06.c06_5, rep, ix, M.G)
+    common.guarded(rep, "C06.6", c06.c06_6, rep, ix)
     c05.shared_tables(rep, ix, M.G)          # values come from tables that hold only this load's data
     # "arguments equal to the values of the written expressions": the evaluator's operator table (shared with C03)
     from . import c03
@@ -393,6 +394,8 @@ def c02_4(rep, ix):
         """True if e denotes the expression children of ctx.arrayrow() in source order (separators removed)"""
         if isinstance(e, ast.Call) and u(e.func) in ("enumerate", "list", "iter", "tuple") and len(e.args) == 1:
             return children_source(e.args[0], at)
+        if isinstance(e, ast.Call) and u(e.func) == "range" and len(e.args) == 1 and isinstance(e.args[0], ast.Call) and u(e.args[0].func) == "len" and len(e.args[0].args) == 1:
+            return children_source(e.args[0].args[0], at)          # positions 0 .. len-1 of the list, in order
         if isinstance(e, ast.Name):
             d = reaching_def(fn, e.id, at)
             return d is not None and children_source(d, at)
